@@ -1,6 +1,7 @@
 import EaselModel.Generated.Alphabets
 import EaselModel.Alphabet.RevcompLemmas
 import EaselModel.Alphabet.ScoreLemmas
+import EaselModel.Alphabet.CustomLemmas
 /-! # C08 — property theorems (statements + glue only; lemmas live in Alphabet/*.lean)
 
 `G.dna`, `G.rna`, `G.amino`, `G.coins`, `G.dice` are the tables dumped from the code under check on this run
@@ -153,6 +154,26 @@ theorem revcomp_involutive (a : Alphabet) (comp : List Nat) (hc : a.complement =
   revcomp_twice a comp hc hw (mkDsq codes) n (by simp [mkDsq]; omega)
     (fun i h1 h2 => mkDsq_valid codes _ hv i h1 (by omega))
 
+/-! ## custom alphabets -/
+
+/-- `esl_alphabet_CreateCustom` on distinct non-NUL 7-bit symbols (`1 ≤ K`, `K+4 ≤ Kp`) succeeds and gives a well-formed
+    alphabet with exactly that symbol string and no complement table -/
+theorem custom_create_wf (syms : List Nat) (K : Nat) (hnd : syms.Nodup) (hascii : ∀ s ∈ syms, s < 128)
+    (hK : 1 ≤ K) (hKp : K + 4 ≤ syms.length) (h250 : syms.length ≤ 250) :
+    ∃ a, createCustom syms K syms.length = some a ∧ a.WF ∧ a.K = K ∧ a.Kp = syms.length ∧ a.sym = syms ∧
+      a.complement = none :=
+  createCustom_wf syms K hnd hascii hK hKp h250
+
+/-- every custom alphabet (CreateCustom followed by any SetEquiv / SetCaseInsensitive / SetDegeneracy calls, and
+    SetIgnored calls that spare the alphabet's own symbols) is well-formed -/
+theorem custom_alphabets_wf (a : Alphabet) (h : Built a) : a.WF := built_wf a h
+
+/-- … hence digitising is faithful for every custom alphabet and every string: digitise ∘ textise ∘ digitise = digitise -/
+theorem custom_digitize_textize_digitize (a : Alphabet) (h : Built a) (seq : List Nat) :
+    ∃ t, a.textize (a.digitize seq).2 (seq.filterMap a.code).length = some t ∧
+      a.digitize t = (.ok, (a.digitize seq).2) :=
+  digitize_textize_digitize a (built_wf a h) seq
+
 /-! ## degenerate scores and counts (over ℚ: the code as a rational function; IEEE rounding is L0, compared bit-exactly
       against the real code by the correspondence run) -/
 
@@ -191,6 +212,15 @@ theorem degen_set_examples :
   decide +kernel
 
 /-! ## non-vacuity -/
+/-- the custom alphabet of the unit test `utest_SetEquiv`: "ACGT-N*~" + three synonyms + case-insensitivity -/
+def demoCustom : Alphabet :=
+  (((((createCustom (str "ACGT-N*~") 4 8).getD G.dna).setEquiv (ch 'a') (ch 'A')).2.setEquiv (ch '1') (ch '-')).2.setEquiv
+    (ch '&') (ch '~')).2.setCaseInsensitive.2
+example : Built demoCustom := by
+  have h0 : createCustom (str "ACGT-N*~") 4 8 = some ((createCustom (str "ACGT-N*~") 4 8).getD G.dna) := by decide +kernel
+  exact Built.caseins _ (Built.equiv _ (Built.equiv _ (Built.equiv _
+    (Built.create (str "ACGT-N*~") 4 (by decide) (by decide) (by decide) (by decide) (by decide) _ h0) _ _) _ _) _ _)
+example : demoCustom.digitize (str "a1&") = (.ok, [255, 0, 4, 7, 255]) := by decide +kernel
 example : G.dna.WFDegen ∧ G.dna.xIsResidue 5 = true ∧ G.dna.xIsDegenerate 5 = true := by decide +kernel
 example : G.dna.WF := by decide +kernel
 example : G.dna.WFComp [3, 2, 1, 0, 4, 6, 5, 8, 7, 9, 10, 14, 13, 12, 11, 15, 16, 17] := by decide +kernel
